@@ -139,6 +139,17 @@ func loadEngine(repo string, patterns []string, dir string) (*Engine, error) {
 
 func (e *Engine) globalFor(v *types.Var) *ssa.Global { return e.globals[v] }
 
+func (e *Engine) reflectValueType() types.Type {
+	for _, p := range e.prog.AllPackages() {
+		if p.Pkg.Path() == "reflect" {
+			if o := p.Pkg.Scope().Lookup("Value"); o != nil {
+				return o.Type()
+			}
+		}
+	}
+	return nil
+}
+
 func (e *Engine) pkgByName(n string) *types.Package { return e.tpkgs[n] }
 
 func (e *Engine) anyPkg(t types.Type) *types.Package {
@@ -835,6 +846,23 @@ func (e *Engine) verify(fn *ssa.Function, opts VerifyOpts) (u *Unit) {
 			}
 		}
 	}
+	// axioms about abstract spec functions
+	for _, ax := range e.contracts.axioms {
+		func() {
+			defer func() {
+				if r := recover(); r != nil {
+					if _, ok := r.(evalError); ok {
+						return
+					}
+					panic(r)
+				}
+			}()
+			aenv := &Env{vars: map[string]*Val{}, pkg: e.pkgByName(ax.Pkg)}
+			f := fr.evalBool(ax.Body, aenv, st, st)
+			u.fact(f)
+			u.assume["axiom "+ax.Name+": "+ax.Body.src] = true
+		}()
+	}
 	exit, results := fr.runTop(st)
 	if exit.dead {
 		return u
@@ -844,6 +872,15 @@ func (e *Engine) verify(fn *ssa.Function, opts VerifyOpts) (u *Unit) {
 	}
 	// postconditions
 	penv := fr.baseEnv()
+	for h, ord := range fr.loopOrd {
+		for _, in := range h.Instrs {
+			if p, ok := in.(*ssa.Phi); ok && p.Comment == "rangeindex" {
+				if v, ok := fr.vals[p]; ok {
+					penv.vars[fmt.Sprintf("$idx%d", ord)] = v
+				}
+			}
+		}
+	}
 	if ct != nil {
 		for i, r := range results {
 			if i < len(ct.Results) {
@@ -1060,6 +1097,9 @@ func (fr *Frame) applyContract(ct *Contract, callee *ssa.Function, recv *Val, ar
 			env.vars[ct.Results[i]] = r
 		}
 	}
+	saveBase := fr.freshBase
+	fr.freshBase = pre.now
+	defer func() { fr.freshBase = saveBase }()
 	for _, en := range ct.Ensures {
 		u.fact(implies(st.pc, fr.evalBool(en, env, st, pre)))
 	}
